@@ -382,21 +382,26 @@ def block_kind_of(blocks, key, value, target):
 
 
 def classify_list(want, got, raw, blocks, target):
-    if not isinstance(got, list):
-        return "identityfile is not a list"
-    if len(got) != len(set(got)) and sorted(set(got)) == sorted(set(want)) and len(want) == len(set(want)):
+    if not isinstance(got, list) or not all(isinstance(x, str) for x in got):
+        return "identityfile is not a list of strings"
+    hexrx = re.compile(r"[0-9a-f]{40}")
+    g = [hexrx.sub(C_MARK, x) if C_MARK in "".join(want) else x for x in got]
+    if any("%h" in x for x in g) and not any("%h" in x for x in want):
+        return "token %h left unexpanded (option obtained before a HostName that itself contains %h)"
+    if len(g) != len(set(g)) and list(dict.fromkeys(g)) == want:
         # which duplicate survived: one written twice in a single block, or one coming from two blocks?
+        dups = {x for x in g if g.count(x) > 1}
         for b in blocks:
             vals = [v for k, v in b["opts"] if k == "identityfile"]
-            if block_applies(b, target) and len(vals) != len(set(vals)):
+            if block_applies(b, target) and any(vals.count(v) > 1 for v in vals):
                 return "identityfile keeps a duplicate written twice in one block"
-        return "identityfile keeps a duplicate across blocks"
-    if any(isinstance(x, str) and "%h" in x for x in got) and not any("%h" in x for x in want):
-        return "token %h left unexpanded in identityfile (HostName itself contains %h)"
-    if sorted(map(str, got)) == sorted(map(str, want)):
+        return "identityfile keeps a duplicate coming from two applying blocks"
+    if sorted(g) == sorted(want):
         return "identityfile values accumulate in a different order than the blocks"
-    if len(got) < len(want):
-        return "identityfile from a later applying block is not accumulated"
+    if len(g) == len(raw) and all(_same_shape(r, x) for r, x in zip(raw, got)):
+        return "token expansion differs in identityfile"
+    if len(g) < len(want) and all(x in want for x in g):
+        return "identityfile from an applying block is not accumulated"
     return "identityfile list differs from the accumulated values of the applying blocks"
 
 
@@ -405,23 +410,37 @@ def classify_scalar(key, want, got, raw, blocks, target, origin):
         if "%h" in got and "%h" not in (want or ""):
             if key == "hostname":
                 return "token %h left unexpanded in hostname"
-            return "token %%h left unexpanded in %s (HostName itself contains %%h)" % key
+            return "token %h left unexpanded (option obtained before a HostName that itself contains %h)"
         if TOKEN_RX.search(got) and not TOKEN_RX.search(want or ""):
             return "documented token left unexpanded in %s" % key
-    # where does the value come from?
+        if isinstance(raw.get(key), str) and _same_shape(raw[key], got):
+            return "token expansion differs in %s" % key  # right line, wrong substitution
+    # which line could the value have come from?  prefer the closest explanation
+    found = set()
     for bi, b in enumerate(blocks):
+        seen_key = False
         for k, v in b["opts"]:
             if k != key:
                 continue
             v_none = key == "proxycommand" and v.lower() == "none"
-            if (got is None and v_none) or v == got or (key in TOKENS and isinstance(got, str) and raw.get(key) != v
-                                                        and not v_none and _same_shape(v, got)):
+            match = (got is None and v_none) or (got is not None and not v_none and (
+                v == got or (key in TOKENS and isinstance(got, str) and _same_shape(v, got))))
+            if match:
                 if not block_applies(b, target):
-                    return "option value comes from a %s block that does not apply" % b["kind"].capitalize()
-                if bi > origin.get(key, -1):
-                    return "a later applying block overrides the first obtained value"
-                if bi == origin.get(key, -1):
-                    return "a repeated key inside one block overrides its first value"
+                    found.add("other:%s" % b["kind"].capitalize())
+                elif bi == origin.get(key, -1) and seen_key:
+                    found.add("repeat")
+                elif bi > origin.get(key, -1):
+                    found.add("later")
+            seen_key = True
+    if "repeat" in found:
+        if got is None:
+            return "'ProxyCommand none' repeated later in a block overrides the block's first ProxyCommand"
+        return "a repeated key inside one block overrides its first value"
+    if "later" in found:
+        return "a later applying block overrides the first obtained value"
+    for f in sorted(found):
+        return "option value comes from a %s block that does not apply" % f.split(":")[1]
     if key == "hostname" and got == target:
         return "hostname falls back to the looked-up name although an applying block sets HostName"
     if key in TOKENS:
